@@ -16,3 +16,5 @@ def check(ctx, prog):
     dispatch.rule_dispatch(ctx, prog)  # scope: the function addresses are taken per call in the process that uses them
     search.rule_resume(ctx, prog)  # scope: a worker delivers every solution of its part exactly once
     dispatch.rule_global_state(ctx, prog)  # scope: no state shared between the solvers of the parts
+    process.rule_queue_lossless(ctx, prog)
+    process.rule_no_dedup(ctx, prog)
